@@ -228,20 +228,30 @@ def recover_guards(ctx, rule):
     it = interp[0]
     f_i = Q.closure(eng, eng.facts_at(it["frame"], it["block"]))
     setterm = guard[0][0].args[0] if guard else None
-    thr = None
-    lt = [f for f in f_i if f[0].op == "lt" and f[1:] == ("eq", 0)]
-    ne0 = [f for f in f_i if f[0].op == "eq" and f[1:] == ("eq", 0) and f[0].args[0].op == "len" and f[0].args[1].op == "int" and f[0].args[1].args[0] == 0]
+    from .. import lin
+    from ..terms import mk
+    L = lin.Ctx()
+    for f in f_i:
+        L.add_fact(f)
+    # the slice bound handed to interpolate is the threshold term
+    sl0 = it["argv"][0]
+    thr = sl0.args[2] if sl0.op == "slice" else None
     ok_c = False
-    d = "facts at interpolate: %s" % [Q.show_fact(f, 3) for f in f_i]
-    if lt:
-        a, b = lt[0][0].args
-        cnt_ok = a.op == "len" and setterm is not None and _same_coll(a.args[0], setterm)
-        thr_ok = Q.params(Q.leaves(b)) == {"self.0"} and not Q.contains(b, lambda t: t.op == "cast" and t.args[2] in ("u8", "u16"))
-        ok_c = cnt_ok and thr_ok
-        thr = b
-        d = "count term %s, threshold term %s" % (S(a, 3), S(b, 3))
+    ne0 = False
+    d = "no distinctness set / threshold term found"
+    if setterm is not None and thr is not None:
+        cnts = [t for f in f_i for t in Q.find_all(f[0], lambda x: x.op == "len" and _same_coll(x.args[0], setterm))]
+        thr_ok = Q.params(Q.leaves(thr)) == {"self.0"} and not Q.contains(thr, lambda t: t.op == "cast" and t.args[2] in ("u8", "u16"))
+        for c in cnts:
+            ge = lin.entails(L, L.lin(thr).add(L.lin(c), -1))                                   # thr <= |set|
+            tight = not lin.infeasible(L.constraints() + [L.lin(c).add(L.lin(thr), -1), L.lin(thr).add(L.lin(c), -1)])
+            if ge and tight and thr_ok:
+                ok_c = True
+            if lin.entails(L, lin.Lin(1).add(L.lin(c), -1)):                                     # |set| >= 1
+                ne0 = True
+            d = "count term %s, threshold term %s: threshold <= count entailed %s, count == threshold admitted %s" % (S(c, 3), S(thr, 3), ge, tight)
     ctx.add(rule, root + "#count-guard", ok_c,
-            "interpolation must be reached only when NOT (|distinct x set| < threshold): %s" % d, it["at"], sample=d)
+            "interpolation must be reached exactly when |distinct x set| >= threshold: %s" % d, it["at"], sample=d)
     ctx.add(rule, root + "#nonempty-guard", bool(ne0),
             "interpolation must be reached only when the distinct set is non-empty", it["at"])
     # refusal is exactly the complement: the Err("Not enough") site is reached from the same two tests only
